@@ -3,6 +3,9 @@
 case kinds
   eval  {"op": "eval", "cv": [...], "strat": "refit"|"update"|<other>, "met": <metric kind>, "rd": bool,
          "fp": None|int, "fail": None|[call_no, kind], "yl": [labels], "yv": [values], "x": None|[[row],...],
+         "pre": None | ["ops", [["fit"|"update", labels, values] | ["predict", labels], ...]] | ["eval", cv, strat, labels, values]
+                (what the forecaster INSTANCE handed to evaluate went through before: fitted/updated/predicted on other
+                 data, or evaluated once already),
          "xl": None|[labels of X, when they differ from yl]}
          cv = ["s", fh, wl, step, iw, sww] | ["e", fh, wl, step, sww] | ["w", fh, wl] | ["c", cutoffs, fh, wl] | ["ns"]
   split {"op": "split", "train": [...], "test": [...], "fh": [...], "yl", "yv", "x"}      (direct call of `_split`)
@@ -27,6 +30,8 @@ OBLIGATIONS = [
     "SkVerif.C07.row_eq_honest_fold_update",
     "SkVerif.C07.history_is_first_splits",
     "SkVerif.C07.row_eq_honest_fold_refit_each",
+    "SkVerif.C07.evaluate_independent_of_prior_state",
+    "SkVerif.C07.honest_folds_independent_of_prior_state",
     "SkVerif.C07.score_arg_order",
     "SkVerif.C07.score_arg_order_witness",
     "SkVerif.C07.cutoff_and_len_columns",
@@ -51,6 +56,7 @@ ASSUMPTIONS = ["integer time index (positions/labels); datetime/period indexes o
                "observations = the y and X handed to fit/update; the exogenous rows handed to predict are by design future-dated and are not counted as leaked observations"]
 RULE = ("exhaustive small scope over splitter kind x fh x window x step x strategy x X/no X x return_data for 3<=n<=7 (quick: seed-rotated 1/23 slice; n=8,9 sampled 2/5 in thorough), metric rotated, "
         "(feasible window configurations all, infeasible ones 1/5) + random series up to n=120 with gapped / shifted labels + failing-forecaster histories "
+        "+ forecaster instances that are not fresh (fitted/updated/predicted on earlier, later or overlapping data, or evaluated before with another splitter/series) "
         "+ malformed arguments + direct _split calls + an oracle-only stream with sktime's NaiveForecaster and metric objects; "
         "distinct by driver line; non-trivial = evaluate returned a table with at least one row")
 LEVEL_TEXT = ("Lean 4 theorems, for all series, splitter configurations, both strategies, all forecaster machines and all metrics, about an executable model of evaluate(): "
@@ -260,6 +266,51 @@ def _x_tok(c):
     return "%s:%s" % (show_ints(xl), "-" if not rows else ",".join(rows))
 
 
+def _pre_series(labels, values):
+    return pd.Series(np.array(values, dtype="float64"), index=pd.Index(np.array(labels, dtype="int64")))
+
+
+def _pre_tok(pre):
+    """driver token for the forecaster's history; calls in the trace encoding"""
+    if pre is None:
+        return "none"
+    if pre[0] == "eval":
+        return "ev=%s!%s!%s!%s!none" % (_cv_tok(pre[1]), {"refit": "r", "update": "u"}[pre[2]], show_ints(pre[3]), show_rats(pre[4]))
+    toks = []
+    for op in pre[1]:
+        if op[0] == "fit":       # fit(y, fh=[1]): horizon = the label after the last one (relative step 1)
+            toks.append("F~%s:%s~none~%s~none" % (show_ints(op[1]), show_rats(op[2]), op[1][-1] + 1))
+        elif op[0] == "update":
+            toks.append("U~%s:%s~none" % (show_ints(op[1]), show_rats(op[2])))
+        else:
+            toks.append("P~%s~none" % show_ints(op[1]))
+    return "ops=" + ";".join(toks)
+
+
+def apply_pre(f, pre, rec=True):
+    """put a forecaster instance through the history `pre` (errors of the history are ignored)"""
+    from sktime.forecasting.base import ForecastingHorizon
+    from sktime.forecasting.model_evaluation import evaluate
+    if pre is None:
+        return
+    if pre[0] == "eval":
+        try:
+            evaluate(f, make_cv(pre[1]), _pre_series(pre[3], pre[4]), strategy=pre[2], scoring=make_metric("asym")[0])
+        except Exception:
+            pass
+        return
+    for op in pre[1]:
+        try:
+            if op[0] == "fit":
+                f.fit(_pre_series(op[1], op[2]), fh=ForecastingHorizon(np.array([op[1][-1] + 1], dtype="int64"), is_relative=False))
+            elif op[0] == "update":
+                f.update(_pre_series(op[1], op[2]))
+            else:
+                f.predict(ForecastingHorizon(np.array(op[1], dtype="int64"), is_relative=False))
+        except Exception:
+            pass
+
+
 def _cv_tok(cv):
     o = lambda v: "none" if v is None else str(v)
     k = cv[0]
@@ -278,9 +329,9 @@ def to_line(c):
     if c["op"] == "eval":
         strat = {"refit": "r", "update": "u"}.get(c["strat"], "x")
         fail = "none" if c.get("fail") is None else "%d:%s" % (c["fail"][0], c["fail"][1])
-        return "C07 eval %s %s %s %s %s %s %s %s %s" % (
+        return "C07 eval %s %s %s %s %s %s %s %s %s %s" % (
             _cv_tok(c["cv"]), strat, c["met"], show_bool(c["rd"]), "none" if c.get("fp") is None else c["fp"], fail,
-            show_ints(c["yl"]), show_rats(c["yv"]), _x_tok(c))
+            _pre_tok(c.get("pre")), show_ints(c["yl"]), show_rats(c["yv"]), _x_tok(c))
     if c["op"] == "lib":
         return None
     if c["op"] == "split":
@@ -305,7 +356,9 @@ def run_real(c):
         try:
             y, _ = make_data(c)
             scoring, _ = make_metric(c["met"])
-            res = evaluate(NaiveForecaster(strategy=c["fc"]), make_cv(c["cv"]), y, strategy=c["strat"], scoring=scoring, return_data=True)
+            f = NaiveForecaster(strategy=c["fc"])
+            apply_pre(f, c.get("pre"))
+            res = evaluate(f, make_cv(c["cv"]), y, strategy=c["strat"], scoring=scoring, return_data=True)
             sc = [col for col in res.columns if col.startswith("test_")]
             return "err=none score=%s len=%s cut=%s pred=%s" % (
                 ",".join(repr(float(v)) for v in res[sc[0]]), show_ints(res["len_train_window"]), show_ints(res["cutoff"]),
@@ -314,6 +367,8 @@ def run_real(c):
             return "err=%s score=- len=- cut=- pred=-" % canon_err(e)
     Rec = rec_class()
     f = Rec(fail=c.get("fail"))
+    apply_pre(f, c.get("pre"))
+    npre = len(f.log)
     err, name, score, ln, cut, data = "none", "-", "-", "-", "-", "-"
     try:
         y, X = make_data(c)
@@ -335,7 +390,7 @@ def run_real(c):
             data = "none"
     except Exception as e:
         err = canon_err(e)
-    return "err=%s name=%s score=%s len=%s cut=%s data=%s trace=%s" % (err, name, score, ln, cut, data, ";".join(f.log) if f.log else "-")
+    return "err=%s name=%s score=%s len=%s cut=%s data=%s npre=%d trace=%s" % (err, name, score, ln, cut, data, npre, ";".join(f.log) if f.log else "-")
 
 
 # ----------------------------------------------------------------------------- comparison (floats vs exact rationals)
@@ -528,6 +583,7 @@ def oracle(c, out):
     except Exception:
         splits = None
     calls = [] if d["trace"] == "-" else [_parse_call(s) for s in d["trace"].split(";")]
+    calls = calls[int(d.get("npre", "0")):]      # the forecaster's earlier history is not evaluate's doing
     # ---- no observation at or after fold i's first test time point reaches the forecaster before its predict
     if splits is not None:
         npred = 0
@@ -646,11 +702,13 @@ def features(c, out):
     if c["op"] == "split":
         return ["op=split", "split=" + ("ok" if out.startswith("ytrain=") else out)]
     if c["op"] == "lib":
-        return ["op=lib", "lib-forecaster=naive-" + c["fc"], "lib-metric=" + c["met"], "lib-strategy=" + c["strat"],
+        return ["op=lib", "lib-prior-state=" + ("fresh" if c.get("pre") is None else "evaluated-before" if c["pre"][0] == "eval" else "fitted-on-other-data"),
+                "lib-forecaster=naive-" + c["fc"], "lib-metric=" + c["met"], "lib-strategy=" + c["strat"],
                 "lib-result=" + ("table" if out.startswith("err=none") else out.split(" ")[0])]
     d = _fields(out)
     f = ["op=eval", "cv=" + c["cv"][0], "strategy=" + str(c["strat"]), "metric=" + c["met"], "X=" + ("yes" if c.get("x") is not None else "no"),
-         "return_data=%s" % c["rd"], "result=" + ("table" if d["err"] == "none" else d["err"]), "fail=" + ("no" if c.get("fail") is None else "injected")]
+         "return_data=%s" % c["rd"], "result=" + ("table" if d["err"] == "none" else d["err"]), "fail=" + ("no" if c.get("fail") is None else "injected"),
+         "prior-state=" + ("fresh" if c.get("pre") is None else "evaluated-before" if c["pre"][0] == "eval" else "fitted-on-other-data")]
     if d["err"] == "none":
         n = len(d["len"].split(","))
         f.append("rows=%s" % ("1" if n == 1 else "2-5" if n <= 5 else "6-20" if n <= 20 else "21+"))
@@ -684,8 +742,36 @@ METRICS = ["asym", "wasym", "sym", "default", "mape"]
 FHS = [[1], [2], [1, 2], [1, 3], [2, 3], [1, 2, 3], [3]]
 
 
+def _gen_pre(rng, yl):
+    """a history for the forecaster instance: fitted / updated / predicted on data before, after or overlapping
+    the series' time points, or evaluated once already (other splitter, other series)"""
+    lo, hi = yl[0], yl[-1]
+    def stretch(kind):
+        m = rng.randrange(2, 7)
+        start = {"earlier": lo - m - rng.randrange(0, 4), "later": hi + rng.randrange(1, 4),
+                 "overlap": lo + rng.randrange(0, max(1, hi - lo)), "same": lo}[kind]
+        return list(range(start, start + m)), _values(rng, m)
+    r = rng.random()
+    if r < 0.35:
+        m = rng.randrange(6, 14)
+        o = rng.choice([lo, lo - 3, hi - 2, hi + 5, 0])
+        fh = rng.choice([[1], [1, 2], [3]])
+        cv = rng.choice([["e", fh, 2, rng.randrange(1, 3), True], ["s", fh, 3, rng.randrange(1, 3), None, True], ["w", fh, None]])
+        return ["eval", cv, rng.choice(["refit", "update"]), list(range(o, o + m)), _values(rng, m)]
+    ops = []
+    l, v = stretch(rng.choice(["earlier", "later", "overlap", "same"]))
+    ops.append(["fit", l, v])
+    if r < 0.7:
+        if rng.random() < 0.6:
+            ops.append(["predict", [l[-1] + 1, l[-1] + 2]])
+        if rng.random() < 0.7:
+            l2 = list(range(l[-1] + 1, l[-1] + 1 + rng.randrange(1, 4)))
+            ops.append(["update", l2, _values(rng, len(l2))])
+    return ["ops", ops]
+
+
 def _mk(rng, cv, n, strat, met, rd, x, lab="zero", fp=None, fail=None):
-    c = {"op": "eval", "cv": cv, "strat": strat, "met": met, "rd": rd, "fp": fp, "fail": fail,
+    c = {"op": "eval", "cv": cv, "strat": strat, "met": met, "rd": rd, "fp": fp, "fail": fail, "pre": None,
          "yl": _labels(rng, n, lab), "yv": _values(rng, n), "x": None if not x else _xrows(rng, n, x), "xl": None}
     return c
 
@@ -742,8 +828,23 @@ def gen_cases(tier, rng):
             cv = ["w", fh, rng.choice([None, wl])]
         else:
             cv = ["c", rng.sample(range(n), min(n, rng.randrange(1, 6))), fh, wl]
-        cases.append(_mk(rng, cv, n, rng.choice(["refit", "update"]), rng.choice(METRICS + ["asym", "wasym"]), rng.random() < 0.4,
-                         rng.choice([0, 0, 1, 2, 3]), lab=rng.choice(["zero", "shift", "gap", "gap"]), fp=rng.choice([None, None, None, 2, -5])))
+        c = _mk(rng, cv, n, rng.choice(["refit", "update"]), rng.choice(METRICS + ["asym", "wasym"]), rng.random() < 0.4,
+                rng.choice([0, 0, 1, 2, 3]), lab=rng.choice(["zero", "shift", "gap", "gap"]), fp=rng.choice([None, None, None, 2, -5]))
+        if rng.random() < 0.25:
+            c["pre"] = _gen_pre(rng, c["yl"])
+        cases.append(c)
+    # ---- forecaster instances that are NOT fresh: fitted on other data before, or evaluated before (both strategies)
+    npz = 260 if quick else 2600
+    for _ in range(npz):
+        n = rng.randrange(5, 14)
+        fh = rng.choice(FHS)
+        wl = rng.randrange(1, 4)
+        cv = rng.choice([["s", fh, wl, rng.randrange(1, 3), None, True], ["e", fh, wl, rng.randrange(1, 3), True],
+                         ["s", fh, wl, 1, wl + 1, True], ["w", fh, None], ["w", fh, wl], ["c", [3, 1], fh, 2]])
+        c = _mk(rng, cv, n, rng.choice(["refit", "update", "update"]), rng.choice(["asym", "wasym", "default", "mape"]), rng.random() < 0.3,
+                rng.choice([0, 0, 1]), lab=rng.choice(["zero", "shift", "gap"]), fp=rng.choice([None, None, 4]))
+        c["pre"] = _gen_pre(rng, c["yl"])
+        cases.append(c)
     # ---- histories with a forecaster that raises at its k-th call
     nfz = 60 if quick else 600
     for _ in range(nfz):
@@ -801,7 +902,9 @@ def gen_cases(tier, rng):
                          ["c", sorted(rng.sample(range(2, n - 4), 2)), fh, wl]])
         cases.append({"op": "lib", "fc": rng.choice(["last", "mean"]), "cv": cv, "strat": rng.choice(["refit", "update"]),
                       "met": rng.choice(["default", "mape"]), "yl": _labels(rng, n, rng.choice(["zero", "shift"])), "yv": _values(rng, n),
-                      "x": None, "xl": None})
+                      "x": None, "xl": None, "pre": None})
+        if rng.random() < 0.5:
+            cases[-1]["pre"] = _gen_pre(rng, cases[-1]["yl"])
     # ---- direct `_split` calls
     ns = 150 if quick else 1500
     for _ in range(ns):
@@ -834,6 +937,10 @@ def shrink(c):
             if m >= 3:
                 yield dict(c, yl=c["yl"][:m], yv=c["yv"][:m], x=None if c.get("x") is None else c["x"][:m],
                            xl=None if c.get("xl") is None else c["xl"][:m])
+    if c.get("pre") is not None:
+        yield dict(c, pre=None)
+        if c["pre"][0] == "ops" and len(c["pre"][1]) > 1:
+            yield dict(c, pre=["ops", c["pre"][1][:-1]])
     if c.get("x") is not None:
         yield dict(c, x=None, xl=None)
     if c["rd"]:
